@@ -40,11 +40,33 @@ def fl(rows):
     return np.array([[float(v) for v in r] for r in rows], dtype=float)
 
 
+DEV = {}          # call site -> [largest deviation below 1e-4 (a passing comparison), number of deviations >= 1e-4]
+
+
+def _rec(val):
+    """margin book-keeping: every float comparison's deviation is recorded per call site (evidence: deviation_max_by_site)"""
+    import sys
+    f = sys._getframe(2)
+    while f is not None and f.f_code.co_name in ("relerr", "_relerr", "<lambda>", "colrel", "rel"):
+        f = f.f_back
+    site = f"{f.f_code.co_filename.rsplit('/', 1)[-1]}:{f.f_code.co_name}:{f.f_lineno}" if f is not None else "?"
+    ent = DEV.setdefault(site, [0.0, 0])
+    if val < 1e-4:
+        ent[0] = max(ent[0], float(val))
+    else:
+        ent[1] += 1
+    return val
+
+
 def relerr(a, b, rel=False):
     return _relerr(a, b, rel)
 
 
 def _relerr(a, b, rel=False):
+    return _rec(_relerr0(a, b, rel))
+
+
+def _relerr0(a, b, rel=False):
     """rel=False: max|a-b| / (1 + max(|a|,|b|))  (O(1)-scaled problems);
        rel=True : purely relative, max|a-b| / max(|a|,|b|) in the max norm; for matrices whose columns have very
                   different magnitudes use colrel"""
@@ -74,7 +96,7 @@ def colrel(A_, B_):
         den = max(np.max(np.abs(A_[:, j])), np.max(np.abs(B_[:, j])), 1e-9 * top)   # (exactly zero columns: zero rows of a factor)
         if den > 0:
             worst = max(worst, float(np.max(np.abs(A_[:, j] - B_[:, j])) / den))
-    return worst
+    return _rec(worst)
 
 
 class ScriptedRandn:
@@ -548,6 +570,7 @@ def gmrf_precision(cuqi, P, n):
 
 # ----------------------------------------------------------------------------- the run
 def run(ctx):
+    DEV.clear()
     cuqi = import_cuqi()
     thorough = ctx.tier == "thorough"
     r = np.random.RandomState(ctx.seed + 606)
@@ -657,6 +680,7 @@ def run(ctx):
     run_gmrf(ctx, cuqi, np.random.RandomState(ctx.seed + 6065), thorough)
     from harness.props.c06_uglaw import run_uglaw
     run_uglaw(ctx, cuqi, np.random.RandomState(ctx.seed + 6064), thorough)
+    ctx.extra_cov["deviation_max_by_site"] = {k: v for k, v in sorted(DEV.items())}
 
 
 def check_rto(ctx, rec):
